@@ -21,6 +21,7 @@ STRATA = [
     ("infeasible-int", 150, 3000),
     ("max-nodes", 150, 3000),
     ("unbounded", 100, 2000),
+    ("deep-tree", 150, 3000),
 ]
 REQUIRED_EVENTS = {"any": ["milp.judged", "milp.optimal-checked", "milp.solutions-entry-checked", "nested.lp.simplex.judged",
                            "milp.l2.is_feasible", "milp.l2.round_binary"]}
@@ -215,6 +216,26 @@ def gen(stratum, rng, tier):
         ints = list(range(n))
         _bound_rows(rng, n, A, b)
         configs = [{"max_nodes": k, "heuristics": h} for k in (1, 2, 3, 5) for h in (True, False)][: rng.randint(3, 8)]
+    elif stratum == "deep-tree":
+        # general integers with coprime coefficients: the branch-and-bound tree is several levels deep and the
+        # optimum frequently sits in a right (>= ceil) branch below depth 2
+        n = rng.randint(3, 4)
+        ints = list(range(n))
+        coef = rng.sample([3, 4, 5, 7, 9, 11, 13], n)
+        A = [coef]
+        b = [rng.randint(20, 45)]
+        if rng.random() < 0.5:
+            A.append([rng.choice([1, 2, 3, 5]) for _ in range(n)])
+            b.append(rng.randint(8, 20))
+        for j in range(n):
+            row = [0] * n
+            row[j] = 1
+            A.append(row)
+            b.append(rng.randint(3, 6))
+        c = [a + rng.choice([-2, -1, 0, 1, 2, 3]) for a in coef]
+        if minimize:
+            c = [-v for v in c]
+        configs = [{"heuristics": False}, {}]
     elif stratum == "unbounded":
         # no bound rows: the relaxation may be unbounded
         configs += [{"heuristics": False}]
